@@ -12,6 +12,8 @@ cov["evaluations"] += sum(c.get("executions", 0) for c in campaigns)
 cov["rule"] += " || [libFuzzer] coverage-guided campaigns: `parse_total` (bytes up to 0xFF = expression text, rest = evaluation choices; dictionary of grammar tokens; seeds = 120 sample lines of the repository) and `consistency` (bytes = choice sequence for the sentence generator, first byte selects one of the C01/C02/C05/C06/C07/C13/C16/C17 oracles, which run inside the target); fresh working corpus, -seed derived from VERIF_SEED, fixed -runs per worker"
 TABLE = [("C01", "semantics"), ("C02", "windows"), ("C06", "roundtrip"), ("C07", "meaning"), ("C13", "idempotent"), ("C05", "positive"), ("C17", "wellformed"), ("C16", "bound_relation")]
 violations = []
+inconclusive = []
+not_reproduced = []
 for c in campaigns:
     target = c.get("target")
     for art in sorted(glob.glob(os.path.join(root, "fuzz", "artifacts", str(target), "*"))):
@@ -31,10 +33,28 @@ for c in campaigns:
         os.makedirs(d, exist_ok=True)
         path = os.path.join(d, f"fuzz-{target}-{h}.json")
         json.dump(body, open(path, "w"), indent=1)
-        violations.append((prop, os.path.relpath(path, root), body["message"]))
+        kind = os.path.basename(art).split("-")[0]
+        if kind != "crash":
+            # timeout-, oom-, slow-unit-: a resource limit of the fuzzer, never a verdict
+            inconclusive.append(f"libFuzzer {kind} artifact {os.path.relpath(art, root)}")
+            os.remove(path)
+            continue
+        # the saved input is the reproducible unit: it only counts if the plain replay fails too
+        import subprocess
+        r = subprocess.run([os.path.join(root, "harness", "target", "release", "ohv"), "replay", path], capture_output=True, text=True)
+        if r.returncode == 1:
+            detail = (r.stdout.splitlines() + [""])[1] if len(r.stdout.splitlines()) > 1 else body["message"]
+            violations.append((prop, os.path.relpath(path, root), detail))
+        else:
+            not_reproduced.append(os.path.relpath(art, root))
+            os.remove(path)
+cov["fuzzing_artifacts_not_reproduced_by_plain_replay"] = not_reproduced
+cov["fuzzing_inconclusive"] = inconclusive
 ev["violations"] = ev.get("violations", 0) + len(violations)
 json.dump(ev, open(ev_path, "w"), indent=1)
 for prop, path, msg in violations:
     print(f"VIOLATION property=C04 replay={path}")
     print(f"  detail: found by coverage-guided fuzzing (oracle of {prop}) :: {msg[:400]}")
-sys.exit(1 if violations else 0)
+for line in inconclusive:
+    print(f"INCONCLUSIVE: {line}")
+sys.exit(1 if violations else (2 if inconclusive else 0))
